@@ -17,6 +17,7 @@ class AObj:
         self.isfunction = isfunction
         self.ismethod = ismethod
         self.attrs = dict(attrs or {})
+        self.methods: Dict[str, Any] = {}      # name -> host callable(*abstract args) -> abstract value (an uninterpreted collaborator)
 
     def __repr__(self):
         return "<%s>" % self.name
@@ -41,6 +42,15 @@ class KindInterp(DictInterp):
                 if e.attr in v.attrs:
                     return v.attrs[e.attr]
                 raise Raised("AttributeError %s.%s" % (v.name, e.attr))
+        if isinstance(e, ast.BinOp) and isinstance(e.op, ast.Mult):
+            l_, r_ = self.ev(e.left), self.ev(e.right)
+            if isinstance(l_, list) and isinstance(r_, int) and not isinstance(r_, bool):
+                return l_ * r_
+            if isinstance(r_, list) and isinstance(l_, int) and not isinstance(l_, bool):
+                return r_ * l_
+            if isinstance(l_, int) and isinstance(r_, int):
+                return l_ * r_
+            raise Unsupported(ast.unparse(e)[:60])
         if isinstance(e, ast.Lambda):
             return Closure([a.arg for a in e.args.args], e.body, self.env, True)
         if isinstance(e, ast.Constant) and isinstance(e.value, str):
@@ -78,7 +88,20 @@ class KindInterp(DictInterp):
                 if len(c.args) == 3:
                     return self.ev(c.args[2])
                 raise Raised("AttributeError %s.%s" % (v.name, a))
+        if isinstance(c.func, ast.Attribute) and not c.keywords and not any(isinstance(a, ast.Starred) for a in c.args):
+            try:
+                recv = self.ev(c.func.value)
+            except Unsupported:
+                recv = None
+            if isinstance(recv, AObj) and c.func.attr in recv.methods:
+                return recv.methods[c.func.attr](*[self.ev(a) for a in c.args])
+        if fn == "zip" and len(c.args) == 1 and isinstance(c.args[0], ast.Starred) and not c.keywords:
+            v = self.ev(c.args[0].value)
+            if isinstance(v, (list, tuple)) and all(isinstance(x, (list, tuple)) for x in v):
+                return [tuple(t_) for t_ in zip(*v)]
         last = fn.split(".")[-1]
+        if isinstance(c.func, ast.Name) and type(self.env.get(fn)).__name__ in ("function", "builtin_function_or_method") and not c.keywords:
+            return self.env[fn](*[self.ev(a) for a in c.args])        # a host stand-in for a collaborator whose contract another rule decides
         if isinstance(c.func, ast.Name) and isinstance(self.env.get(fn), Closure):
             return self.apply(self.env[fn], [self.ev(a) for a in c.args])
         if last[:1].isupper() and not last.endswith("Error") and last not in ("Exception",) and not any(isinstance(a, ast.Starred) for a in c.args):
